@@ -183,15 +183,43 @@ def select (c : SelCfg) : Strategy :=
 ripgrep always runs the concurrent stderr drainer. -/
 abbrev ripgrepAsyncStderr : Bool := true
 
-/-- `decompress.rs::default_decompression_commands`: the rules the harness relies on, glob suffix ↦ program
-(source-anchored; lz4 / lzma / br / zstd / Z are registered likewise, whether or not the program exists). -/
-def decompRules : List (String × String) :=
-  [("gz", "gzip"), ("tgz", "gzip"), ("bz2", "bzip2"), ("tbz2", "bzip2"), ("xz", "xz"), ("txz", "xz"),
-   ("lz4", "lz4"), ("lzma", "xz"), ("br", "brotli"), ("zst", "zstd"), ("zstd", "zstd"), ("Z", "uncompress")]
+/-! `decompress.rs::default_decompression_commands` (every constant and every rule is source-anchored):
+the programs with their arguments, and the glob `*.<suffix>` ↦ program table.  All rules are registered
+whether or not the program exists (`resolve_binary` is a no-op off Windows). -/
+def ARGS_GZIP : List String := ["gzip", "-d", "-c"]
+def ARGS_BZIP : List String := ["bzip2", "-d", "-c"]
+def ARGS_XZ : List String := ["xz", "-d", "-c"]
+def ARGS_LZ4 : List String := ["lz4", "-d", "-c"]
+def ARGS_LZMA : List String := ["xz", "--format=lzma", "-d", "-c"]
+def ARGS_BROTLI : List String := ["brotli", "-d", "-c"]
+def ARGS_ZSTD : List String := ["zstd", "-q", "-d", "-c"]
+def ARGS_UNCOMPRESS : List String := ["uncompress", "-c"]
 
-/-- `has_command(path)` for a file name: some rule `*.<suffix>` matches. -/
-def recognisedName (name : String) : Bool :=
-  decompRules.any fun r => name.toList.length ≥ r.1.length + 1 ∧ (String.ofList (name.toList.drop (name.toList.length - r.1.length - 1))) == "." ++ r.1
+def decompRules : List (String × List String) :=
+  [("gz", ARGS_GZIP),
+   ("tgz", ARGS_GZIP),
+   ("bz2", ARGS_BZIP),
+   ("tbz2", ARGS_BZIP),
+   ("xz", ARGS_XZ),
+   ("txz", ARGS_XZ),
+   ("lz4", ARGS_LZ4),
+   ("lzma", ARGS_LZMA),
+   ("br", ARGS_BROTLI),
+   ("zst", ARGS_ZSTD),
+   ("zstd", ARGS_ZSTD),
+   ("Z", ARGS_UNCOMPRESS)]
+
+/-- the rule `*.<suffix>` matches the file name -/
+def ruleMatches (suffix name : String) : Bool :=
+  name.toList.length ≥ suffix.length + 1 ∧
+    (String.ofList (name.toList.drop (name.toList.length - suffix.length - 1))) == "." ++ suffix
+
+/-- `DecompressionMatcher::command`: the command of the last matching rule (program :: arguments). -/
+def decompCommand (name : String) : Option (List String) :=
+  (decompRules.reverse.find? fun r => ruleMatches r.1 name).map (·.2)
+
+/-- `has_command(path)` for a file name: some rule matches. -/
+def recognisedName (name : String) : Bool := (decompCommand name).isSome
 
 /-! ### Part 3 — two pipes of capacity `K`
 
